@@ -1,5 +1,7 @@
 mod alone;
+mod c09;
 mod c12;
+mod conv;
 mod c13;
 mod digest;
 mod docgen;
@@ -16,6 +18,7 @@ use framework::*;
 
 fn make_check(id: &str) -> Option<Box<dyn Check>> {
     match id {
+        "C09" => Some(Box::new(c09::C09::new())),
         "C12" => Some(Box::new(c12::C12::new())),
         "C13" => Some(Box::new(c13::C13::new())),
         _ => None,
